@@ -29,6 +29,10 @@ func binPath(name string) string {
 	if d := os.Getenv("VERIF_BUILD"); d != "" {
 		return filepath.Join(d, name)
 	}
+	// the binaries ./check builds lie next to this one
+	if self, err := os.Executable(); err == nil {
+		return filepath.Join(filepath.Dir(self), name)
+	}
 	return "/verif/build/" + name
 }
 
